@@ -1251,14 +1251,17 @@ type failure struct {
 	tag string
 }
 
-// shrinkAll reduces every (case, rule tag) failure to a canonical witness:
-// (1) blame slice (only the blamed context and ops), kept if it still violates
-// the same rule; (2) greedy one-step reductions (drop contexts/chunks/ops,
+// Reduction of (case, rule tag) failures to canonical witnesses. sliceAndCap
+// (after every batch): (1) blame slice (only the blamed context and ops), kept
+// if it still violates the same rule, then at most perSignature failures per
+// signature are kept. shrinkAll (at the end): (2) greedy one-step reductions (drop contexts/chunks/ops,
 // hoist, leave the middleware, simpler op forms, canonical item names and
 // flags) until none violates the rule any more. All failures advance in lock
 // step (one driver batch per round); equal cases are merged.
-func (e *engine) shrinkAll(fails []failure, viols []Viol) []failure {
-	cur := map[string]failure{}
+func (e *engine) sliceAndCap(cur map[string]failure, fails []failure, viols []Viol) map[string]failure {
+	if cur == nil {
+		cur = map[string]failure{}
+	}
 	var slices []Case
 	var sliced []bool
 	for i, f := range fails {
@@ -1275,9 +1278,13 @@ func (e *engine) shrinkAll(fails []failure, viols []Viol) []failure {
 		}
 		cur[f.tag+" @ "+caseText(f.cs)] = f
 	}
-	dbg("blame slices that still fail: %d of %d; distinct %d", kept, len(fails), len(cur))
+	dbg("blame slices that still fail: %d of %d; distinct so far %d", kept, len(fails), len(cur))
 	cur = capBySignature(cur)
 	dbg("after the per-signature cap: %d", len(cur))
+	return cur
+}
+
+func (e *engine) shrinkAll(cur map[string]failure) []failure {
 	const window = 60
 	offset := map[string]int{}
 	done := map[string]failure{}
@@ -1442,8 +1449,9 @@ func Run(c *core.Ctx) {
 		return
 	}
 
-	var fails []failure
-	var failViols []Viol
+	var front map[string]failure // failures kept for reduction (sliced, capped per signature)
+	nfail := 0
+	tagHist := map[string]int{}
 	nctx, nhttp, multi, maxOps, total := 0, 0, 0, 0, 0
 	// process evaluates one batch of (normalized) cases and collects every
 	// (case, violated rule) pair; the raw outputs of the batch are dropped.
@@ -1452,6 +1460,14 @@ func Run(c *core.Ctx) {
 		got := e.evaluate(cases)
 		total += len(cases)
 		dbg("evaluated %d", total)
+		var fails []failure
+		var failViols []Viol
+		defer func() {
+			if len(fails) > 0 {
+				nfail += len(fails)
+				front = e.sliceAndCap(front, fails, failViols)
+			}
+		}()
 		for i, cs := range cases {
 			c.Eval(1)
 			nctx += len(cs.Ctxs)
@@ -1478,6 +1494,7 @@ func Run(c *core.Ctx) {
 					tags[v.Tag] = true
 					fails = append(fails, failure{cs, v.Tag})
 					failViols = append(failViols, v)
+					tagHist[v.Tag]++
 				}
 			}
 		}
@@ -1536,19 +1553,22 @@ func Run(c *core.Ctx) {
 	c.Set("middleware_cases", nhttp)
 	c.Set("multi_context_cases", multi)
 	c.Set("max_executed_ops_in_a_context", maxOps)
-	c.Set("failing_case_rule_pairs_before_reduction", len(fails))
-	dbg("failing %d", len(fails))
-	if os.Getenv("VERIF_DEBUG") != "" {
-		h := map[string]int{}
-		for _, f := range fails {
-			h[f.tag]++
+	c.Set("failing_case_rule_pairs_before_reduction", nfail)
+	dbg("failing %d %v", nfail, tagHist)
+	seen := map[string]bool{}
+	defer func() { // listed known findings (all part of the exhaustive set) that did not fail
+		stale := []string{}
+		for _, k := range c.KnownKeys() {
+			if !seen[k] {
+				stale = append(stale, k)
+			}
 		}
-		dbg("tags %v", h)
-	}
-	if len(fails) == 0 {
+		c.Set("known_findings_not_reproduced", stale)
+	}()
+	if nfail == 0 {
 		return
 	}
-	min := e.shrinkAll(fails, failViols)
+	min := e.shrinkAll(front)
 	c.Set("reduction_cap_per_signature", perSignature)
 	c.Set("canonical_witnesses", len(min))
 	for _, f := range min {
@@ -1557,6 +1577,7 @@ func Run(c *core.Ctx) {
 		if !ok {
 			continue
 		}
+		seen[f.tag+" @ "+caseText(f.cs)] = true
 		c.Violate(f.tag+" @ "+caseText(f.cs), v.Msg, f.cs)
 	}
 }
